@@ -328,3 +328,13 @@ def run(ck, prog):
 
 
 EXPLANATION += " tql2: the loop subtracting the shift h from the diagonal runs up to the dimension n (not to the end m of the active block)."
+
+
+# ------------------------------------------------------------------ generic: a configuration field read on one successful path is read on every successful path
+_run_pre_config = run
+
+
+def run(ck, prog):
+    _run_pre_config(ck, prog)
+    from sa import config
+    config.run_rule(ck, prog, set(DIMENSION_FILES))
